@@ -249,12 +249,84 @@ def r07_1(ctx, repo):
     ctx.floor(rule, 8)
 
 
+def _names_selection_axes(ctx, rule, repo, cls):
+    """`names.reshape(a, b)[i, j]`: the published names of the wrapped model
+    are laid out (parameter-per-dimension > dimension); the reshape must
+    split them that way and the parameter index must address the parameter
+    axis, the dimension index the dimension axis."""
+    NPD = sym('n_param_per_dim')
+
+    class Idx:
+        def __init__(self, role):
+            self.role = role
+
+    class L(ShapeLifter):
+        def _call(self, n, env, fn, depth, owner):
+            f = U(n.func)
+            if f.endswith('_population_model.get_parameter_names'):
+                return Arr([Ax(NPD * N_DIM, ((NPD.name, NPD),
+                                             (N_DIM.name, N_DIM)))],
+                           is_list=True)
+            if f.endswith('get_set_population_parameters'):
+                return Tup([Idx('parameter'), Idx('dimension')])
+            return super()._call(n, env, fn, depth, owner)
+
+        def subscript(self, n, env, fn, depth, owner):
+            if isinstance(n.slice, ast.Tuple) and len(n.slice.elts) == 2:
+                idx = [self.ev(e, env, fn, depth, owner)
+                       for e in n.slice.elts]
+                if all(isinstance(i, Idx) for i in idx):
+                    v = self.ev(n.value, env, fn, depth, owner)
+                    self.sites.append((n, v, idx))
+                    return TOP
+            return super().subscript(n, env, fn, depth, owner)
+    for m in ('set_dim_names', 'set_population_parameters'):
+        fn = repo.method(cls, m)
+        construct = '%s.%s' % (cls, m)
+        lf = L(repo, cls)
+        lf.sites = []
+        env = {'self._n_pop': NPD * N_DIM, 'self._n_dim': N_DIM,
+               'self._n_covariates': N_COV}
+        try:
+            lf._block(fn.body, env, fn, 0, cls)
+        except Exception as e:
+            ctx.error(rule, '%s: %s' % (construct, e))
+            continue
+        if _emit_events(ctx, rule, repo, cls, fn, lf, construct):
+            continue
+        for node, v, idx in lf.sites:
+            where = repo.loc(node, cls, m)
+            if not (isinstance(v, Arr) and v.ndim == 2):
+                ctx.error(rule, '%s: layout of the name table `%s` not '
+                          'derived' % (construct, U(node.value)[:40]))
+                continue
+            want = {'parameter': NPD, 'dimension': N_DIM}
+            bad = [(k, i.role) for k, i in enumerate(idx)
+                   if not eq(v.axes[k].size, want[i.role])]
+            if bad:
+                k, role = bad[0]
+                ctx.violation(
+                    rule, where, construct, 'index axes',
+                    '`%s` addresses axis %d (size %s) of the name table '
+                    'with the %s indices; the names are laid out '
+                    '(parameter > dimension), so the selected names label '
+                    'other entries than the covariate model modifies' % (
+                        U(node)[:60], k, v.axes[k].size, role),
+                    engine=ENG)
+            else:
+                ctx.ok(rule, where, construct,
+                       'name table (parameter, dimension) is addressed '
+                       'with (parameter indices, dimension indices)',
+                       engine=ENG)
+
+
 def r07_3(ctx, repo):
     """Index provenance: names handed to the covariate model are selected
     with the covariate model's own normalised selection."""
     rule = 'R07.3'
     cls = 'CovariatePopulationModel'
     c = repo.cls(cls)
+    _names_selection_axes(ctx, rule, repo, cls)
     n = 0
     for m, fn in sorted(c.methods.items()):
         calls = [x for x in ast.walk(fn) if isinstance(x, ast.Call)
